@@ -30,6 +30,7 @@
 
 import abc
 import inspect
+import threading
 from enum import Enum
 from types import FrameType
 
@@ -83,6 +84,7 @@ class LocationAction(object):
         self.__config = config
         self.__window = TracepointWindow(self.__config.get(WINDOW_START, 0), self.__config.get(WINDOW_END, 0))
         self.__stats = TracepointExecutionStats()
+        self.__lock = threading.Lock()
         self.__action_type = action_type
         self.__location: Optional['Location'] = None
 
@@ -179,6 +181,23 @@ class LocationAction(object):
                 return False
 
         return True
+
+    def try_trigger(self, ts):
+        """
+        Check the limits again and record the fire, as one atomic step.
+
+        Several threads can reach the same tracepoint at the same time, and all of them can pass
+        `can_trigger` before any of them has recorded its fire. Only the threads for which this
+        returns True may perform the action.
+
+        :param ts: the time the tracepoint has been triggered
+        :return: true, if the fire was allowed and has been recorded; else false
+        """
+        with self.__lock:
+            if not self.can_trigger(ts):
+                return False
+            self.__stats.fire(ts)
+            return True
 
     def record_triggered(self, ts):
         """
